@@ -41,7 +41,7 @@ def edge_label(eid, ids):
     return eid if ids == 'int' else ('' if (ids == 'blank' and eid == 0) else 'e%d' % eid)
 
 
-def build_net(edges, ids='int', geo=False):
+def build_net(edges, ids='int', geo=False, nodeids=None):
     from tracklib.core import ENUCoords, GeoCoords, Obs, Track, Network, Node, Edge
     P = (lambda v: GeoCoords(2.0 + v * 1e-3, 48.0, 0)) if geo else (lambda v: ENUCoords(v, 0, 0))      # geo: a network read in geographic coordinates
     net = Network()
@@ -49,8 +49,17 @@ def build_net(edges, ids='int', geo=False):
         e = Edge(edge_label(eid, ids), Track([Obs(P(s)), Obs(P(t))]))
         e.orientation = o
         e.weight = w
-        net.addEdge(e, Node(s, P(s)), Node(t, P(t)))
+        net.addEdge(e, Node(NID(s, nodeids), P(s)), Node(NID(t, nodeids), P(t)))
     return net
+
+
+def NID(v, nodeids=None):
+    """the identifier node v carries in the network: itself, or (nodeids='neg') the negative numbers an editor gives to new objects: -1, -2, -3 ..."""
+    return -(v + 1) if nodeids == 'neg' else v
+
+
+def UNID(k, nodeids=None):
+    return -k - 1 if nodeids == 'neg' else k
 
 
 def is_geo(case):
@@ -94,7 +103,7 @@ def gen_dist(rng, n, tier):
     for k in range(n):
         g = gen_graph(rng, small=(k % 3 == 0))
         used = sorted({e[1] for e in g} | {e[2] for e in g})
-        cases.append({'edges': g, 'src': rng.choice(used), 'shared': rng.random() < 0.3, 'pre': rand_pre(rng, True), 'ids': rng.choice(['int', 'int', 'str', 'blank'])})
+        cases.append({'edges': g, 'src': rng.choice(used), 'shared': rng.random() < 0.3, 'pre': rand_pre(rng, True), 'ids': rng.choice(['int', 'int', 'str', 'blank']), 'nodeids': rng.choice([None, None, None, 'neg'])})
     return cases
 
 
@@ -131,15 +140,17 @@ def rand_pre(rng, enu=False):
 
 
 def run_dist(case):
-    net = build_net(case['edges'], case.get('ids', 'int'), is_geo(case))
+    ni = case.get('nodeids')
+    net = build_net(case['edges'], case.get('ids', 'int'), is_geo(case), ni)
     use_subnet(net, case)
     res = {}
     reg = {} if case.get('shared') else None      # the optional output dictionary, reused across successive calls as the API allows
+    src = NID(case['src'], ni)
     for t in sorted(net.NODES):
-        res[str(t)] = net.shortest_distance(case['src'], t, output_dict=reg) if reg is not None else net.shortest_distance(case['src'], t)
+        res[str(UNID(t, ni))] = net.shortest_distance(src, t, output_dict=reg) if reg is not None else net.shortest_distance(src, t)
     # untargeted form: list over all nodes (1e300 for unreachable)
-    lst = net.shortest_distance(case['src'])
-    return {'to': res, 'all': dict(zip([str(k) for k in net.NODES], lst))}
+    lst = net.shortest_distance(src)
+    return {'to': res, 'all': dict(zip([str(UNID(k, ni)) for k in net.NODES], lst))}
 
 
 def coq_dist(case, obs):
@@ -207,12 +218,13 @@ def gen_table(rng, n, tier):
     for k in range(n):
         g = gen_graph(rng, small=(k % 2 == 0))
         cut = rng.choice([0, 1, 2, 3, 5, 8, 13, 0.5, 2.5, 1e300, -1, -2.5])      # a negative cut-off: no distance is that small, the table is empty
-        cases.append({'edges': g, 'cut': cut, 'pre': rand_pre(rng, True), 'ids': rng.choice(['int', 'int', 'str', 'blank']), 'via': rng.choice([None, None, 'prepare', 'twice'])})
+        cases.append({'edges': g, 'cut': cut, 'pre': rand_pre(rng, True), 'ids': rng.choice(['int', 'int', 'str', 'blank']), 'via': rng.choice([None, None, 'prepare', 'twice']), 'nodeids': rng.choice([None, None, None, 'neg'])})
     return cases
 
 
 def run_table(case):
-    net = build_net(case['edges'], case.get('ids', 'int'), is_geo(case))
+    ni = case.get('nodeids')
+    net = build_net(case['edges'], case.get('ids', 'int'), is_geo(case), ni)
     use_subnet(net, case)
     if case.get('via') in ('prepare', 'twice') and not (case.get('pre') and case['pre'][0] == 'prep'):      # (not after an earlier preparation with another cut-off: a smaller cut-off does not shrink a table)
         # the table built by the network's own prepare(): once, or a second time with a larger cut-off after a first preparation with a smaller one (the table then
@@ -225,8 +237,8 @@ def run_table(case):
         d = net.all_shortest_distances(cut=case['cut'])
         net.DISTANCES = d
     nodes = sorted(net.NODES)
-    prep = {'%d,%d' % (s, t): net.prepared_shortest_distance(s, t) for s in nodes for t in nodes}
-    return {'table': sorted([[k[0], k[1], v] for k, v in d.items()]), 'prep': prep}
+    prep = {'%d,%d' % (UNID(s, ni), UNID(t, ni)): net.prepared_shortest_distance(s, t) for s in nodes for t in nodes}
+    return {'table': sorted([[UNID(k[0], ni), UNID(k[1], ni), v] for k, v in d.items()]), 'prep': prep}
 
 
 def coq_table(case, obs):
